@@ -694,6 +694,16 @@ class Symex:
                     self.unsupported(node, "sequence pattern on a symbolic value")
                 return False
             return all(self._match(p, x, binds, node) for p, x in zip(pat.patterns, v))
+        if isinstance(pat, ast.MatchClass) and not pat.patterns:
+            # ``case Cls():`` / ``case Cls(attr=pattern):`` = isinstance test plus attribute sub-patterns
+            r = self.isinstance(v, self.ev(pat.cls), node)
+            if not (r if isinstance(r, bool) else self.truth(r, node)):
+                return False
+            for name, p in zip(pat.kwd_attrs, pat.kwd_patterns):
+                attr = ast.copy_location(ast.Attribute(value=ast.Constant(value=None), attr=name, ctx=ast.Load()), node)
+                if not self._match(p, self.getattr(v, name, attr), binds, node):
+                    return False
+            return True
         self.unsupported(node, f"match pattern {type(pat).__name__}")
 
     def _assume_true(self, c):
